@@ -24,7 +24,7 @@ SPEC = dict(
     ),
     bound=dict(
         quick="4 backward programs x all non-empty valid-input subsets x every fault position x all set orders (<=3 inputs); "
-              "mtl trunk/heads with 1..3 tasks, 1..2 features; every fault kind of the statement",
+              "mtl trunk/heads with 1..3 tasks, 1..2 features; every fault kind of the statement (non-scalar losses with two elements and with ONE element of shapes (1,), (1,1); parameters frozen after the forward pass; generator containers)",
         thorough="same as quick (the space is small enough to be enumerated completely in the quick tier)",
     ),
     assumptions=[
